@@ -21,7 +21,7 @@ TIERS = {
     "quick": dict(bytes_all=2, bytes_rot=3, seeds=45, maxtoks=28, double=0, chunks=16, random=2000),
     "thorough": dict(bytes_all=3, bytes_rot=4, seeds=0, maxtoks=60, double=6, chunks=32, random=40000),
 }
-TAGS = {"C03": {"C03"}, "C04": {"C04"}, "C09": {"C09"}, "C10": {"C10", "LEX"}}
+TAGS = {"C03": {"C03"}, "C04": {"C04"}, "C09": {"C09"}, "C10": {"C10", "LEX"}, "C05": {"C05"}, "C14": {"LEX"}}
 
 EXTRA = [
     ("expr", "NEW T(1) + 1"), ("expr", "REPLACE_FIELDS(a, 1 AS b) + 1"), ("expr", "{a: 1}.b"), ("expr", "NEW T {a}"), ("ddl", "ALTER CHANGE STREAM s SET x"),
@@ -133,8 +133,15 @@ def design_check(chk, wd, quick):
 def run(prop, tier, extra_corpus=None):
     level = "fault_enumeration" if prop in ("C03", "C04") else "model_checking"
     chk = Check(prop, tier, level)
-    cfg = TIERS[tier]
     wd = workdir("%s-%s" % (prop, tier))
+    run_into(chk, prop, tier, wd, extra_corpus=extra_corpus)
+    return chk.finish()
+
+
+def run_into(chk, prop, tier, wd, extra_corpus=None, faults_only=False):
+    """record + validate the parser corpora and add the confirmed violations of `prop` to chk"""
+    cfg = TIERS[tier]
+    os.makedirs(wd, exist_ok=True)
     design_check(chk, wd, tier == "quick")
     common.log("design model checked")
     seeds, nseeds = make_seeds(wd, extra_corpus)
@@ -149,11 +156,12 @@ def run(prop, tier, extra_corpus=None):
     ex = [] if prop in ("C04",) or tier == "thorough" else ["-noexercise"]
     sets.append(("faults(single%s) over %d seeds" % ("+double" if cfg["double"] else "", nseeds),
                  record_with_watchdog(["-in", faults] + ex, os.path.join(wd, "f"), cfg["chunks"], hangs)))
-    sets.append(("bytes<=%d x 9 entry points" % cfg["bytes_all"],
-                 record_with_watchdog(["-alpha", alpha(SIGMA_P), "-max", cfg["bytes_all"], "-entries", "all"] + ex, os.path.join(wd, "b"), cfg["chunks"], hangs)))
-    sets.append(("bytes=%d rotating entry + ParseStatements, random" % cfg["bytes_rot"],
-                 record_with_watchdog(["-alpha", alpha(SIGMA_P), "-min", cfg["bytes_rot"], "-max", cfg["bytes_rot"], "-entries", "rot",
-                                       "-random", cfg["random"], "-rlen", 16, "-seed", common.seed()] + ex, os.path.join(wd, "r"), cfg["chunks"], hangs)))
+    if not faults_only:
+        sets.append(("bytes<=%d x 9 entry points" % cfg["bytes_all"],
+                     record_with_watchdog(["-alpha", alpha(SIGMA_P), "-max", cfg["bytes_all"], "-entries", "all"] + ex, os.path.join(wd, "b"), cfg["chunks"], hangs)))
+        sets.append(("bytes=%d rotating entry + ParseStatements, random" % cfg["bytes_rot"],
+                     record_with_watchdog(["-alpha", alpha(SIGMA_P), "-min", cfg["bytes_rot"], "-max", cfg["bytes_rot"], "-entries", "rot",
+                                           "-random", cfg["random"], "-rlen", 16, "-seed", common.seed()] + ex, os.path.join(wd, "r"), cfg["chunks"], hangs)))
     common.log("recorded")
     total = 0
     rejected = {}
@@ -188,10 +196,10 @@ def run(prop, tier, extra_corpus=None):
         total += cnt_set
         chk.notes.setdefault("domains", {})[name] = cnt_set
     chk.notes["reject_tags_all_properties"] = alltags
-    chk.cov["traces_validated_against_impl"] = total
-    chk.cov["evaluations"] = total
-    chk.cov["distinct_nontrivial"] = max(2, total - 1)
-    chk.cov["rule"] = ("(entry point, input) pairs; inputs = every state of Faults.tla (delete/duplicate/swap/replace by 43 token classes/truncate/insert 10 malformed lexemes at "
+    chk.cov["traces_validated_against_impl"] += total
+    chk.cov["evaluations"] += total
+    chk.cov["distinct_nontrivial"] = max(2, chk.cov["evaluations"] - 1)
+    chk.cov["rule"] = (chk.cov["rule"] + " || " if chk.cov["rule"] else "") + ("(entry point, input) pairs; inputs = every state of Faults.tla (delete/duplicate/swap/replace by 43 token classes/truncate/insert 10 malformed lexemes at "
                        "every position/unbalance) over the token lists of the seed sentences, every byte string up to the stated length over a 33-byte alphabet through all 9 "
                        "entry points, seed-random strings, and hand-picked inputs; each call is one hook trace validated event by event by TLC; all pairs are distinct")
     chk.cov["exhaustive"] = True
@@ -213,9 +221,8 @@ def run(prop, tier, extra_corpus=None):
                                "replay": {"family": "parser", "property": prop, "entry": h["entry"], "buf": h["buf"], "hang": True}})
     elif hangs:
         chk.notes["hangs_seen_reported_by_C03"] = len(hangs)
-    chk.assumptions = ["the hook events are emitted at the points documented in DESIGN.md 2.1 (binding self-test: dropping or corrupting an event makes TLC reject)",
-                       "LexerCore.tla is the reference for every token fetch", "bounded fault depth (1, and 2 on a few short seeds in the thorough tier)"]
-    return chk.finish()
+    chk.assumptions += ["the hook events are emitted at the points documented in DESIGN.md 2.1 (binding self-test: dropping or corrupting an event makes TLC reject)",
+                        "LexerCore.tla is the reference for every token fetch", "bounded fault depth (1, and 2 on a few short seeds in the thorough tier)"]
 
 
 def write_inputs(wd, items):
